@@ -48,7 +48,27 @@ impl PackageMetadata {
             Some(d) => r is Ok && r->Ok_0 == d,
             None => match get_u32(self.header, 1009) { Some(d) => r is Ok && r->Ok_0 == d, None => r is Err },
         },'''),
+    Raw('''
+    /// NOT under contract (multizip / from_iter / closures): the zipped dependency list as an
+    /// uninterpreted function of the header and the three tags read
+    #[verifier::external_body]
+    fn get_dependencies(&self, names_tag: IndexTag, flags_tag: IndexTag, versions_tag: IndexTag) -> (r: Result<Vec<Dependency>, Error>)
+        ensures r is Ok ==> r->Ok_0@ == deps_spec(self.header, names_tag as u32, flags_tag as u32, versions_tag as u32),
+            r is Ok <==> deps_ok(self.header, names_tag as u32, flags_tag as u32, versions_tag as u32),
+    { unimplemented!() }
+'''),
+] + [Fn(PKG, f, impl='impl PackageMetadata', subs=[ret()],
+        spec='''    ensures r is Ok ==> r->Ok_0@ == deps_spec(self.header, %d, %d, %d),
+        r is Ok <==> deps_ok(self.header, %d, %d, %d),''' % (n, fl, v, n, fl, v))
+     for f, n, fl, v in (('get_provides', 1047, 1112, 1113), ('get_requires', 1049, 1048, 1050),
+                         ('get_conflicts', 1054, 1053, 1055), ('get_obsoletes', 1090, 1114, 1115),
+                         ('get_recommends', 5046, 5048, 5047), ('get_suggests', 5049, 5051, 5050),
+                         ('get_enhances', 5055, 5057, 5056), ('get_supplements', 5052, 5054, 5053))] + [
     Raw('''}
+/// R5: Dependency is opaque here
+pub struct Dependency { pub id: u64 }
+pub uninterp spec fn deps_spec(h: Header<IndexTag>, n: u32, f: u32, v: u32) -> Seq<Dependency>;
+pub uninterp spec fn deps_ok(h: Header<IndexTag>, n: u32, f: u32, v: u32) -> bool;
 // vacuity canary: must FAIL
 pub fn canary_c05_acc(m: &PackageMetadata)
 {
@@ -59,6 +79,7 @@ pub fn canary_c05_acc(m: &PackageMetadata)
 ] + TAIL
 
 OBLIGATIONS = {('PackageMetadata::' + f): ['C05'] for f in (
+    'get_provides get_requires get_conflicts get_obsoletes get_recommends get_suggests get_enhances get_supplements '
     'get_name get_version get_release get_arch get_vendor get_url get_vcs get_license get_packager get_build_host '
     'get_cookie get_source_rpm get_summary get_description get_group get_epoch get_build_time get_installed_size').split()}
 CANARIES = ['canary_c05_acc']
